@@ -38,6 +38,22 @@ CHECKS = {
              "max_value, monotone, idempotent; all cells are replayed on the real quantizers and every recorded call "
              "(value, q(q(x)), min/max) is judged by the TLC trace specification (exact dyadics, float32 STE model).",
         design="7 C03, 5.3, 5.4"),
+    "C04": dict(
+        spec="QBinTern.tla + MC_QGroup + Trace_QBinTern",
+        text="TLC proves for all small shapes x admissible (scale_axis, elements_per_scale) that the grouping is a "
+             "partition with the declared group count and size and emits that lattice; the real binary/ternary "
+             "quantizers are run on it (integer-grid data for exact least-squares sums, free float32 data) and TLC "
+             "judges every recorded tensor call: code alphabet, sign / threshold rule, threshold-shapedness, scale "
+             "sign, constancy per group, least-squares optimum, power-of-two snap and exponent bounds.",
+        design="7 C04"),
+    "C05": dict(
+        spec="MC_QAuto + Trace_QAuto (+ QBinTern grouping)",
+        text="TLC checks the alpha='auto' rule on all tiny integer tensors with exact rationals (codes in width, "
+             "maximum on the top code and reproduced, zero group finite, equivariance); recorded calls of "
+             "quantized_bits/quantized_linear with auto, auto_po2 and frozen post-training scales on rank 1-4 tensors "
+             "are judged by the TLC trace specification: y = float32 STE of scale*code*step, code range, scale "
+             "positive / per channel / power of two / within bounds, maximum not clipped, scale equivariance.",
+        design="7 C05"),
 }
 
 
